@@ -1,0 +1,22 @@
+//! Verification hooks: thin `pub` wrappers around crate-private items so that an external
+//! harness crate can drive them. Compiled only with `--cfg zcash_librustzcash_verif`; adds no
+//! behaviour.
+
+use alloc::vec::Vec;
+
+use crate::kind::unified::{self, private::SealedContainer, ParseError};
+
+/// `<unified::Address as SealedContainer>::parse_items(hrp, buf)`.
+pub fn address_parse_items(hrp: &str, buf: &[u8]) -> Result<Vec<unified::Receiver>, ParseError> {
+    unified::Address::parse_items(hrp, buf)
+}
+
+/// `<unified::Address as SealedContainer>::parse_internal(hrp, buf)`.
+pub fn address_parse_internal(hrp: &str, buf: &[u8]) -> Result<unified::Address, ParseError> {
+    unified::Address::parse_internal(hrp, buf)
+}
+
+/// `<unified::Address as SealedContainer>::to_jumbled_bytes(hrp)`.
+pub fn address_to_jumbled_bytes(addr: &unified::Address, hrp: &str) -> Vec<u8> {
+    addr.to_jumbled_bytes(hrp)
+}
